@@ -441,6 +441,76 @@ example :
     allRefused true none ⟨5, 1, some o⟩ [c1, c2] = true ∧
     ((run true none ⟨5, 1, some o⟩ [c1, c2]).1.getD []).length = 1 := by decide
 
+/-! ### the variant of commit 608a57d (forget fulfilled carried fns at the head of the cycle): regression theorems
+
+  608a57d was in /repo for a few hours: to keep a carried patch from swallowing a cycle (C03-N2) it forgot, at the
+  head of `process_resource_event`, the carried fns that yield no operation on the body of the new cycle
+  (`settled`, `cycleForgetting`). This check found that it loses effects the code before it delivered (finding
+  C08-F4) and that it evaluates the handlers' functions outside the error throttling (C08-F5); the rework that
+  followed took the head block back (the cycle's patch starts from the memory again: `cycle`) and repaired C03-N2
+  by a zero delay in the early exit of `process_resource_causes` instead. -/
+
+/-- What the variant did: the carried fns `l` either open the cycle's patch as ever (the cycle is `cycle`), or one
+    application of them to the cycle's body changes nothing and the cycle is that of an empty memory — a carried fn
+    was never dropped while it would change the BODY AT HAND. (That body is not the freshest state the cycle gets
+    to see: `forgetting_variant_loses_witness`.) -/
+theorem forgetting_variant_forgets_only_fulfilled (sub : Bool) (l : List Fn) (fields : Kvs) (fns : List Fn) (orig : Obj)
+    (env : Env) (s : Server) :
+    (noOps l orig = false ∧
+      cycleForgetting sub (some l) fields fns orig env s = cycle sub (some l) fields fns orig env s) ∨
+    (noOps l orig = true ∧ (applyFns l orig).fins = orig.fins ∧ statusChanged orig (applyFns l orig) = false ∧
+      cycleForgetting sub (some l) fields fns orig env s = cycle sub none fields fns orig env s) := by
+  by_cases h : noOps l orig = true
+  · refine Or.inr ⟨h, noOps_fins l orig h, ?_, ?_⟩
+    · simp only [noOps, Bool.and_eq_true, Bool.not_eq_true'] at h
+      exact h.2
+    · unfold cycleForgetting cycle
+      rw [settled_of_noOps l orig h]
+  · have h' : noOps l orig = false := by simpa using h
+    refine Or.inl ⟨h', ?_⟩
+    unfold cycleForgetting cycle
+    rw [settled_of_ops l orig h']
+
+-- non-vacuity: both alternatives occur
+example : noOps [.userFin true "u"] ⟨1, 6, false, [], []⟩ = false ∧ noOps [.userFin true "u"] ⟨1, 6, false, ["u"], []⟩ = true := by
+  decide
+
+/-- Nobody interfering, on the fresh body, the variant ended exactly as `carry_forward` says of the code: one
+    application of carried + new fns to the fresh finalizer list, empty memory. The two differ only under
+    interference — and in what the cycle does besides (the variant did not skip the handlers: C03's clause). -/
+theorem forgetting_variant_same_when_quiet (sub : Bool) (mem : Option (List Fn)) (fields : Kvs) (newfns : List Fn) (o : Obj) (s : Server)
+    (ho : s.obj = some o) (hns : ¬ (o.marked = true ∧ o.fins = [])) :
+    (cycleForgetting sub mem fields newfns o Env.quiet s).2 = none ∧
+    ((∃ o', (cycleForgetting sub mem fields newfns o Env.quiet s).1.server.obj = some o' ∧ o'.uid = o.uid ∧
+        o'.fins = (applyFns (mem.getD [] ++ newfns) o).fins) ∨
+     ((cycleForgetting sub mem fields newfns o Env.quiet s).1.server.obj = none ∧ o.marked = true ∧
+        (applyFns (mem.getD [] ++ newfns) o).fins = [])) := by
+  have h := quiet_cycleOf sub (settled mem o) fields newfns o s ho hns
+  rw [settled_fins mem newfns o] at h
+  exact h
+
+/-- REGRESSION of the variant (finding C08-F4, fixed by the rework): the carried `ensure finalizer u` is fulfilled on
+    the body of the next cycle (the conflicting foreign write had added `u`) and the variant forgets it at the head;
+    the cycle has dict content of its own; right before its merge-patch the foreign actor removes `u` again. The
+    variant sends the merge-patch only and leaves the object WITHOUT `u`, nothing in the memory; the code evaluates
+    the carried fn on the RESPONSE of that merge-patch (the freshest body), sends the JSON-patch and leaves `u` on
+    the object. Replayed on the real code by the check (corpus/C08/F4_forgotten_then_unfulfilled.json). -/
+theorem forgetting_variant_loses_witness :
+    ∃ (sub : Bool) (l : List Fn) (fields : Kvs) (o : Obj) (env : Env) (s : Server),
+      s.obj = some o ∧ (∀ f ∈ l, f.isFramework = false) ∧ noOps l o = true ∧
+      -- the variant
+      ((cycleForgetting sub (some l) fields [] o env s).1.reqs.map (fun r => (r.kind, r.code)) = [(.mergeBody, 200)]) ∧
+      ((cycleForgetting sub (some l) fields [] o env s).1.server.obj.map (·.fins) = some []) ∧
+      (cycleForgetting sub (some l) fields [] o env s).2 = none ∧
+      -- the code
+      ((cycle sub (some l) fields [] o env s).1.reqs.map (fun r => (r.kind, r.code)) = [(.mergeBody, 200), (.jsonBody, 200)]) ∧
+      ((cycle sub (some l) fields [] o env s).1.server.obj.map (·.fins) = some ["u"]) ∧
+      (cycle sub (some l) fields [] o env s).2 = none :=
+  ⟨false, [.userFin true "u"], [("status", obj [("p", num 1)])], ⟨1, 6, false, ["u"], []⟩,
+   { slips := fun k => if k = .mergeBody then [.setFins []] else [], faults := fun _ => .none },
+   ⟨6, 1, some ⟨1, 6, false, ["u"], []⟩⟩,
+   rfl, by decide, by decide, by decide, by decide, by rfl, by decide, by decide, by rfl⟩
+
 /-- The framework's finalizer edit after a conflict is RE-DECIDED, not re-applied. Relative to any
     decision function `decide` (C06's decision block: the framework fns it queues for a body): whatever
     happens to the cycle that queued `decide o₁` — a conflict included — nothing of it stays in the
